@@ -111,7 +111,7 @@ func ReadStringBytes(buf []byte) (string, error) {
 	if len(buf) < int(sz)+4 {
 		return "", io.ErrUnexpectedEOF
 	}
-	return string(buf[4 : 4+sz]), nil
+	return string(buf[4 : 4+int(sz)]), nil
 }
 
 func ReadStringBytesSharedMemory(buf []byte) (string, error) {
@@ -122,7 +122,7 @@ func ReadStringBytesSharedMemory(buf []byte) (string, error) {
 	if len(buf) < int(sz)+4 {
 		return "", io.ErrUnexpectedEOF
 	}
-	cut := buf[4 : 4+sz]
+	cut := buf[4 : 4+int(sz)]
 	return *(*string)(unsafe.Pointer(&cut)), nil
 }
 
